@@ -52,7 +52,12 @@ def view(T, v):
     B = M.base_of(T)
     k = B[0]
     if k in ('SEQ', 'SET'):
-        return dict(v)
+        # presence is what is sent: a DEFAULT component holding its default value is absent
+        out = dict(v)
+        for name, ft, opt, dflt in B[1]:
+            if opt == 'D' and name in out and M.values_equal(ft, out[name], M.thaw(dflt)):
+                del out[name]
+        return out
     if k == 'CHOICE':
         return {v[0]: v[1]}
     if k == 'BOOL':
